@@ -10,6 +10,7 @@ mod c09;
 mod c14;
 mod hist;
 mod c03;
+mod c08;
 
 use engine::Ctx;
 
@@ -66,6 +67,8 @@ fn main() {
         ("C14", Some(p)) => c14::replay(&ctx, p),
         ("C03", None) => c03::run(&ctx),
         ("C03", Some(p)) => c03::replay(&ctx, p),
+        ("C08", None) => c08::run(&ctx),
+        ("C08", Some(p)) => c08::replay(&ctx, p),
         ("C16", None) => c16::run(&ctx),
         ("C16", Some(p)) => c16::replay(&ctx, p),
         _ => {
